@@ -880,6 +880,7 @@ pub fn c15(tier: &str, seed: u64) -> Vec<Case> {
     let own_labels = { let mut f = vec![b"self".to_vec()]; f.extend(service_labels.clone()); f };
     let own = mk_name(&own_labels);
     let n = if thorough { 30000 } else { 2500 };
+    let mut r2enc = Rng::new(seed ^ 0xE1C);
     for it in 0..n {
         let mut store: ResourceRecordManager<'static> = ResourceRecordManager::new();
         let own_ptr = ResourceRecord::new(service.clone(), CLASS::IN, 0, RData::PTR(PTR(own.clone())));
@@ -933,6 +934,9 @@ pub fn c15(tier: &str, seed: u64) -> Vec<Case> {
             for rec in records { p.answers.push(rec); }
             if r.chance(1, 3) { p.answers.push(ResourceRecord::new(mk_name(&[b"other".to_vec(), b"_http".to_vec(), b"_tcp".to_vec(), b"local".to_vec()]), CLASS::IN, 120, RData::A(A { address: 77 }))); }
             if r.chance(1, 3) { p.additional_records.push(ResourceRecord::new(own.clone(), CLASS::IN, 120, RData::A(A { address: 66 }))); }
+            // ... or among the answers, in front of or behind the peer's records (multicast loopback hands a host its own
+            // announcements back; a peer may answer for several names at once)
+            if r.chance(1, 4) { let rec = ResourceRecord::new(own.clone(), CLASS::IN, 120, RData::A(A { address: 67 })); if r.chance(1, 2) { p.answers.insert(0, rec); } else { p.answers.push(rec); } }
             // records of a host and of another service's instance riding along in the additional section
             if r.chance(1, 3) {
                 p.additional_records.push(ResourceRecord::new(mk_name(&[b"host".to_vec(), b"local".to_vec()]), CLASS::IN, 120, RData::A(A { address: 0x0A090909 })));
@@ -953,9 +957,11 @@ pub fn c15(tier: &str, seed: u64) -> Vec<Case> {
                 let mut ch = None;
                 sync_add_response_to_resources(parsed, &service, &own, &mut store, &mut ch);
             }
-            let wire = p.build_bytes_vec_compressed().unwrap();
+            // what another implementation puts on the wire: every fourth announcement is encoded by the independent
+            // reference encoder (RFC field layouts, its own compression choices) instead of the library's writer
+            let wire = if r.chance(1, 4) { crate::refenc::encode_packet(&text::packet(&p), crate::refenc::Compress::Random(&mut r2enc, 6), false, None).0 } else { p.build_bytes_vec_compressed().unwrap() };
             wires.push(wire.clone());
-            let parsed = Packet::parse(&wire).unwrap();
+            let parsed = match Packet::parse(&wire) { Ok(x) => x, Err(_) => { v.push(Case::oracle_only().tag("reference-announcement").fail("discovery-differs", "an announcement encoded by the reference encoder is rejected".into())); continue; } };
             line.push_str(&format!(" I 0 {} {} {}", text::name(&service), text::name(&own), text::packet(&parsed)));
             let mut ch = None;
             sync_add_response_to_resources(parsed, &service, &own, &mut store, &mut ch);
